@@ -161,8 +161,13 @@ where
 
     // Whether the resulting array may contain null lists
     let nullable = cast_options.safe || array.null_count() != 0;
+    // The offsets of a sliced list do not start at zero: only the values they
+    // span belong to this array, positions below are relative to that span
+    let first_offset = array.offsets()[0].as_usize();
+    let span = array.offsets()[array.len()].as_usize() - first_offset;
+    let array_values = array.values().slice(first_offset, span);
     // Nulls in FixedSizeListArray take up space and so we must pad the values
-    let values = array.values().to_data();
+    let values = array_values.to_data();
     let mut mutable = MutableArrayData::new(vec![&values], nullable, cap);
     // The end position in values of the last incorrectly-sized list slice
     let mut last_pos = 0;
@@ -171,15 +176,12 @@ where
     let is_prev_empty = if array.offsets().len() < 2 {
         false
     } else {
-        let first_offset = array.offsets()[0].as_usize();
-        let second_offset = array.offsets()[1].as_usize();
-
-        first_offset == 0 && second_offset == 0
+        array.offsets()[1].as_usize() == first_offset
     };
 
     for (idx, w) in array.offsets().windows(2).enumerate() {
-        let start_pos = w[0].as_usize();
-        let end_pos = w[1].as_usize();
+        let start_pos = w[0].as_usize() - first_offset;
+        let end_pos = w[1].as_usize() - first_offset;
         let len = end_pos - start_pos;
 
         if len != size as usize {
@@ -206,7 +208,7 @@ where
     }
 
     let values = match last_pos {
-        0 if !is_prev_empty => array.values().slice(0, cap), // All slices were the correct length
+        0 if !is_prev_empty => array_values.slice(0, cap), // All slices were the correct length
         _ => {
             if mutable.len() != cap {
                 // Remaining slices were all correct length
